@@ -12,7 +12,15 @@ by the safety predicates only).  After every event the harness writes the model
 inputs the event amounts to, the node's projection and every emitted message; `lean/RaftDriver.lean` replays the inputs
 through `RS.handle` and compares exactly (lock-step).  The four safety predicates are also evaluated directly on the
 implementation's states after every event (SAFETY-VIOLATION = failing schedule).  Stage A (`CommittedIndex`, `VoteResult`)
-is compared on random inputs in the same driver run."""
+is compared on random inputs in the same driver run.
+
+Stage D, first step (suite "quorum+confchange"): `harness raftsim -stageD` (harness/quorum.go) runs etcd's `quorum.JointConfig.CommittedIndex` /
+`VoteResult` on random joint configs with partial ack / vote maps, and random sequences of `confchange.Changer` operations (Simple with 1-3
+changes, EnterJoint with the autoLeave flag, LeaveJoint; AddNode / AddLearnerNode / RemoveNode / UpdateNode / a type outside the enum / NodeID 0)
+from `confchange.Restore` of a random ConfState or from an empty tracker; the same driver recomputes every line with the model of
+`lean/RedisGoModel/Raft/RQJoint.lean` (ok/err, the resulting tracker.Config and the ProgressMap must agree after every operation).  The theorems about
+that model (quorum intersection, single-change / joint overlap, CommittedIndex / VoteResult specifications, the Changer keeps its invariants and
+fails only for the reasons it names) are `RQJ.*` in Props/C15Conf.lean and Props/C15ConfChanger.lean."""
 import concurrent.futures
 import os
 import re
@@ -86,6 +94,72 @@ def schedule_of_line(lines, lineno):
 
 def parse_stats(line):
     return {k: (int(v) if v.isdigit() else v) for k, v in (kv.split("=", 1) for kv in line.split()[2:] if "=" in kv)}
+
+
+def run_stage_d(R, binary):
+    """suite "quorum+confchange": JQ / JV / CI / CC lines of `raftsim -stageD` recomputed by the Lean model (RQJoint.lean)"""
+    cases = 3000 if R.tier == "quick" else 50000
+    args = ["-schedules", "0", "-stageA", "0", "-stageD", str(cases), "-seed", str(R.seed * 7 + 3)]
+    t0 = time.time()
+    lines, se, rc = core.run_harness(binary, "raftsim", [], args=args)
+    harness_s = time.time() - t0
+    d = run_raft_driver(lines)
+    summ = {k: int(v) for k, v in d["summary"].items() if v.isdigit()}
+    mism, unk = d["mismatches"], d["unknown"]
+    kind = {}
+    for l in lines:
+        kind[l.split(" ", 1)[0]] = kind.get(l.split(" ", 1)[0], 0) + 1
+    cc = [l.split() for l in lines if l.startswith("CC ") or l.startswith("CI restore ")]
+    errs = {}
+    for f in cc:
+        if f[-1] != "-":
+            errs[f[-1].replace("_", " ")] = errs.get(f[-1].replace("_", " "), 0) + 1
+    # non-trivial: a truly joint config (both halves non-empty), or a Changer operation that got past the joint / non-joint test
+    trivial_err = ("can't_apply_simple_config_change_in_joint_config", "config_is_already_joint", "can't_leave_a_non-joint_config")
+    nontrivial = sum(1 for l in lines if l[:3] in ("JQ ", "JV ") and l.split()[1] != "-" and l.split()[2] != "-") + \
+        sum(1 for f in cc if f[-1] not in trivial_err)
+    nd = summ.get("stageD", 0)
+    pick = [l for l in lines if l.startswith("JQ ") and " - " not in l[:14]][:1] + [l for l in lines if l.startswith("JV ") and l.endswith("pending")][:1] + \
+        [l for l in lines if l.startswith("CI restore") and " ok " in l and l.split()[4] != "-"][:1] + [l for l in lines if l.startswith("CC enter") and " ok " in l][:1] + \
+        [l for l in lines if l.startswith("CC leave") and " ok " in l][:1] + [l for l in lines if l.startswith("CC simple") and " err " in l and "more_than" in l][:1]
+    R.add_cases(nd, nontrivial, samples=pick)
+    ok = rc == 0 and not mism and not unk and nd == len(lines) and kind.get("JQ", 0) == cases and kind.get("JV", 0) == cases and kind.get("CC", 0) == cases
+    R.oblige("Stage D (quorum+confchange correspondence): quorum.JointConfig.CommittedIndex / VoteResult = RQJ.JointConfig.committedIndex / voteResult on random "
+             "joint configs and partial ack / vote maps; confchange.Changer (Simple, EnterJoint, LeaveJoint, from Restore or an empty tracker) = RQJ.simple / "
+             "enterJoint / leaveJoint / restore on random operation sequences: ok/err, tracker.Config and ProgressMap after every operation",
+             "correspondence", ok, "%d mismatches, %d unknown, %d/%d lines recomputed (%d JQ, %d JV, %d Changer operations in %d sequences)" % (
+                 len(mism), len(unk), nd, len(lines), kind.get("JQ", 0), kind.get("JV", 0), kind.get("CC", 0), kind.get("CI", 0)))
+    R.suites.append(dict(name="quorum+confchange", cases=cases, lines=len(lines), recomputed=nd, mismatches=len(mism) + len(unk),
+                         harness_s=round(harness_s, 1), driver_s=round(d["seconds"], 1), driver_processes=1))
+    g = lambda pre: {k[len(pre):]: v for k, v in sorted(summ.items()) if k.startswith(pre)}
+    R.extra["stageD_quorum_confchange"] = dict(
+        joint_committed_index_cases=summ.get("d:JQ", 0), joint_vote_result_cases=summ.get("d:JV", 0), vote_results=g("d:JV/"),
+        changer_sequences=kind.get("CI", 0), sequences_from_empty_tracker=summ.get("d:CI/empty", 0),
+        restore=dict(non_joint=dict(ok=summ.get("d:restore/ok", 0), err=summ.get("d:restore/err", 0)),
+                     joint=dict(ok=summ.get("d:restore-joint/ok", 0), err=summ.get("d:restore-joint/err", 0))),
+        operations={op: dict(ok=summ.get("d:%s/ok" % op, 0), err=summ.get("d:%s/err" % op, 0)) for op in ("simple", "enter", "leave")},
+        operations_by_state_before={k: v for k, v in g("d:").items() if "-on-" in k},
+        state_after_operation=g("d:state-after/"), changes_per_operation=g("d:changes/"), change_types=g("d:change/"),
+        errors_hit=dict(sorted(errs.items(), key=lambda kv: -kv[1])),
+        errors_never_hit="the failures of the final checkAndReturn ('... is in Learners and Voters[0]' etc.): RQJ.simple_eq_ok_iff / enterJoint_eq_ok_iff / "
+                         "leaveJoint_eq_ok_iff + changer_result_wf prove they cannot occur on configs the Changer produced",
+        note="ProgressMap compared as (ids, IsLearner) against the map derived from the model config; errors compared as ok/err")
+    # ---- disagreements
+    for k, m in enumerate((mism + unk)[:3]):
+        n = int(m.split()[1])
+        line = lines[n - 1] if 0 < n <= len(lines) else ""
+        trace = [line]
+        if line.startswith("CC ") or line.startswith("CI "):
+            j = n - 1
+            while j > 0 and not lines[j].startswith("CI "):
+                j -= 1
+            trace = [l for l in lines[j:n] if l.startswith("CI ") or l.startswith("CC ")]
+        R.violation("raftsim-stageD-%d" % k, dict(
+            kind="tie-broken", engine="raftsim", suite="quorum+confchange", summary=m[:400], schedule=None, trace=trace,
+            explanation="etcd's quorum / confchange code and the model RQJ (lean/RedisGoModel/Raft/RQJoint.lean) disagree on this input: the Stage-D theorems "
+                        "(quorum intersection, Changer invariants) no longer transfer to the code until the model or the code is repaired; the trace is the "
+                        "Changer sequence from its start (CI line) to the failing operation, or the single JQ / JV line"))
+    return mism + unk
 
 
 def run(R, ctx):
@@ -182,9 +256,13 @@ def run(R, ctx):
     R.extra["model_inputs_by_kind"] = {k[3:]: v for k, v in summ.items() if k.startswith("in-")}
     R.extra["model_branch_coverage"] = {k[3:]: v for k, v in sorted(summ.items()) if k.startswith("br:")}
     R.extra["messages_checked"] = summ.get("messages", 0)
-    R.extra["outside_lockstep"] = ["membership changes (Stage D): not generated by the lock-step scheduler", "ReadIndex, leader transfer, PreVote, CheckQuorum "
+    R.extra["outside_lockstep"] = ["membership changes (Stage D): not generated by the lock-step scheduler; the quorum / confchange layer they rest on is "
+                                   "tied separately (suite quorum+confchange)", "ReadIndex, leader transfer, PreVote, CheckQuorum "
                                    "(off in raftexample's Config)", "which MsgApp slice is sent when (Progress/inflights/probing/RejectHint): any valid slice "
                                    "is accepted (leaderOut)"]
+
+    # ---- Stage D, first step: quorum + confchange layer
+    mism_d = run_stage_d(R, binary)
 
     # ---- failing schedules
     for k, sv in enumerate(safety[:3]):
@@ -203,7 +281,7 @@ def run(R, ctx):
             kind="tie-broken", engine="raftsim", summary=m[:400], schedule=sched, trace=prefix[-400:] if sched else [lines[n - 1]],
             explanation="raft.RawNode and RS.handle disagree on this event: the theorems (proved about RS.handle) no longer transfer to the code "
                         "until the model or the code is repaired"), found_input=not safety or True)
-    if ctx.broken and not mism and not safety:
+    if ctx.broken and not mism and not safety and not mism_d:
         R.violation("proof-broken", dict(kind="proof-broken", broken=ctx.broken,
                                          summary="theorem(s) no longer check: " + ", ".join(t for t, _ in ctx.broken)), found_input=False)
 
